@@ -6,7 +6,9 @@ mod util;
 
 mod bringup;
 mod c03;
+mod c04;
 mod c10;
+mod c14;
 mod dec;
 
 pub fn verif_dir() -> String {
@@ -51,11 +53,16 @@ fn main() {
         eprintln!("bad tier {tier}");
         std::process::exit(2);
     }
+    if replay.is_some() {
+        std::env::set_var("VERIF_REPLAY_MODE", "1");
+    }
     let args = Args { id: id.clone(), tier, replay, rest };
     // A panic inside the *machinery* (not inside a guarded call into the subject) is a machinery failure.
     let r = std::panic::catch_unwind(|| match id.as_str() {
         "C03" => c03::main(&args),
+        "C04" => c04::main(&args),
         "C10" => c10::main(&args),
+        "C14" => c14::main(&args),
         "bringup" => bringup::main(&args),
         _ => {
             eprintln!("unknown check {id}");
